@@ -455,7 +455,7 @@ def _read_block_items_maybe(
     one_block, new_offset = _read_block(docstring, offset=offset, **options)
     if not one_block:
         return [], new_offset
-    return [(new_offset, one_block.splitlines())], new_offset
+    return [(new_offset, one_block.split("\n"))], new_offset
 
 
 def _get_name_annotation_description(
